@@ -101,3 +101,185 @@ Example C01_example_routing :
   kind_of_oclass OShardedTensor 33 32 = (WSharded, false) /\ g_read_kind EChunked = Some (RChunked, true) /\
   g_read_kind EList = None.
 Proof. vm_compute. repeat split. Qed.
+
+(* ==== the glue of snapshot.py, as it is in the source now ============================================================
+   gen/GlueGen.v is rewritten on every run from /repo's snapshot.py by translator/gen_glue.py: Snapshot._take_impl,
+   _pop_rng_state, _gather_keys, _gather_manifest, restore, _load_stateful, _get_state_dict_for_manifest and read_object
+   translated statement by statement over the vocabulary of model/Glue.v.  Leaves are opaque values; containers, keys, key
+   order and logical paths are those of the flatten / inflate generated from flatten.py (C15_generated_inflate_flatten),
+   storage locations those of the generated get_storage_path (gen/DispatchGen.v).  The components whose internals are
+   other properties' subjects enter through the laws below, each named after the theorems that establish it for the
+   component's own model; model/GlueGenObs.v [world1] is a one-rank world that satisfies all of them (the _one_rank
+   theorems carry no law as a hypothesis). *)
+From TS Require Import model.Flatten model.FlattenPy model.StoragePath model.FlattenGenObs model.Glue gen.GlueGen model.GlueGenObs
+  proofs.FlattenProofs proofs.GlueInst.
+
+Definition glue_laws (W : world) : Prop :=
+  (* C12 / collectives: all_gather_object returns, among the others', what this rank contributed *)
+  (forall (A : Type) (x : A), In x (w_all_gather W A x)) /\
+  (* C06_* (partitioner): on this rank the partitioner keeps the rank's entries and write requests *)
+  (forall es ws, NoDup (map fst es) -> map fst ws = map fst es ->
+     exists es' ws', w_partition W es ws = Some (es', ws') /\ Permutation es' es /\ Permutation ws' ws) /\
+  (* C17_roundtrip, C16 chunking, C11_write_exactly_once: an object written at a location of its own is read back from it *)
+  (forall st loc o r, NoDup (map fst st) -> In (loc, o) st -> w_read W st (LObj loc None r) = Some o) /\
+  (* C01_tensor_data_path, C01_tensor_roundtrip_all_knobs: after slab batching every relocated entry still reads back its object *)
+  (forall es wrs, NoDup (map wr_path wrs) ->
+     Forall2 (stored_as W wrs (snd (w_batch_write W es wrs))) es (fst (w_batch_write W es wrs))) /\
+  (* C06 consolidate_replicated_entries succeeds on manifests with distinct paths *)
+  (forall m, NoDup (map fst m) -> exists ms, w_consolidate W (w_all_gather W _ m) = Some ms) /\
+  (* C07_replicated_visible_everywhere, C07_private_only_to_owner, C14_metadata_roundtrip: at the same world size the rank's
+     view of the global manifest built by _gather_manifest is the rank's own manifest; nothing is sharded *)
+  (forall m ms, NoDup (map fst m) -> (forall p, In p (map fst m) -> starts_slash p = false) ->
+     w_consolidate W (w_all_gather W _ m) = Some ms ->
+     let v := w_manifest_for_rank W (mkMeta (w_world_size W) (global_of ms)) (w_rank W) in
+     NoDup (map fst (fst v)) /\ (forall p e, In (p, e) (fst v) <-> In (p, e) m) /\ snd v = []) /\
+  (* C16 merged reads: batching read requests does not change which requests are served *)
+  (forall rs r, In r (w_batch_read W rs) <-> In r rs) /\
+  (* C07 / C08: the elasticity rewrite only touches sharded entries *)
+  (forall m rq, w_elasticity W m [] rq = m).
+
+(* (a) TAKE THEN RESTORE, same world size, seen from one rank.  For every application state A = {key -> stateful} with
+   distinct non-empty keys (an empty key is C05's known finding) whose state dicts have dicts with distinct keys (wf_obj), no
+   RNGState among them, storage locations of distinct leaves distinct (C05), every replication glob list, sync or async,
+   batching on or off (inside W), and for EVERY set T of restore targets whose keys are among A's (any subset, any current
+   contents of the targets): take succeeds, restore succeeds, and the load_state_dict calls are exactly
+   [expected_loads]: in the order of the sorted keys, each requested stateful receives the object its counterpart's
+   state_dict() returned at take time - same container types, keys with their types, key order, leaves (with strict= only
+   for nn.Modules).  Also: take calls prepare_write once per leaf with obj / logical_path / rank / replicated = (path in
+   the replicated paths) / is_async_snapshot = the caller's flag; restore hands every prepare_read the tensor found at the
+   same logical path in the target's own state dict as in-place destination. *)
+Theorem C01_generated_take_restore : forall (W : world) A repl is_async custom path T strict,
+  glue_laws W ->
+  NoDup (map fst A) -> no_rng A -> wf_app A -> nonempty_keys A -> locations_distinct W A ->
+  NoDup (map fst T) -> no_rng T -> (forall k t, In (k, t) T -> exists a, In (k, a) A) ->
+  exists st md x1 gkA gk x2,
+    gather_keys_gen W (sdict_keys A) = Some gkA /\
+    take_impl_gen W path A repl [] is_async custom fx0 = Some ((st, md), x1) /\
+    fx_loads x1 = [] /\
+    fx_writes x1 = map (wcall_of W (w_calc_replicated W (concat (map (blkF A) gkA)) repl) is_async custom) (concat (map (blkF A) gkA)) /\
+    gather_keys_gen W (sdict_keys T) = Some gk /\ NoDup gk /\ (forall k, In k (map fst T) -> In k gk) /\
+    restore_gen W (mkSnap md st) T strict fx0 = Some x2 /\
+    fx_loads x2 = expected_loads A T strict gk /\
+    fx_preps x2 = expected_preps W T (fst (w_manifest_for_rank W md (w_rank W))) gk.
+Proof.
+  intros W A repl is_async custom path T strict (L1 & L2 & L3 & L4 & L5 & L6 & L7 & L8).
+  exact (take_restore_no_rng W L1 L2 L3 L4 L5 L6 L7 L8 A repl is_async custom path T strict).
+Qed.
+Print Assumptions C01_generated_take_restore.
+
+(* ... in the one-rank world, where every law is proved *)
+Theorem C01_generated_take_restore_one_rank : forall nobatch table A repl is_async custom path T strict,
+  let W := world1 nobatch table in
+  NoDup (map fst A) -> no_rng A -> wf_app A -> nonempty_keys A ->
+  NoDup (map fst T) -> no_rng T -> (forall k t, In (k, t) T -> exists a, In (k, a) A) ->
+  exists st md x1 gkA gk x2,
+    gather_keys_gen W (sdict_keys A) = Some gkA /\
+    take_impl_gen W path A repl [] is_async custom fx0 = Some ((st, md), x1) /\
+    fx_loads x1 = [] /\
+    fx_writes x1 = map (wcall_of W (w_calc_replicated W (concat (map (blkF A) gkA)) repl) is_async custom) (concat (map (blkF A) gkA)) /\
+    gather_keys_gen W (sdict_keys T) = Some gk /\ NoDup gk /\ (forall k, In k (map fst T) -> In k gk) /\
+    restore_gen W (mkSnap md st) T strict fx0 = Some x2 /\
+    fx_loads x2 = expected_loads A T strict gk /\
+    fx_preps x2 = expected_preps W T (fst (w_manifest_for_rank W md (w_rank W))) gk.
+Proof. exact take_restore_one_rank. Qed.
+Print Assumptions C01_generated_take_restore_one_rank.
+
+(* what [expected_loads] says: the loads are exactly one per requested stateful, with the saved state dict *)
+Theorem C01_generated_loads_are_the_saved_state_dicts : forall A T strict gk ev, NoDup (map fst A) -> NoDup (map fst T) ->
+  (forall k, In k (map fst T) -> In k gk) -> (forall k t, In (k, t) T -> exists a, In (k, a) A) ->
+  (In ev (expected_loads A T strict gk) <->
+   exists k t a, In (k, t) T /\ In (k, a) A /\ ev = mkLoad (sf_id t) (sf_state a) (strict_of t strict)).
+Proof. exact expected_loads_in. Qed.
+Print Assumptions C01_generated_loads_are_the_saved_state_dicts.
+
+(* With an RNGState in the application state the code flattens it FIRST (before any state_dict() of the others runs),
+   re-applies it after the loop, and restore loads it LAST; the statement is the one above with [no_rng] dropped and the
+   RNG stateful's load moved to the end of [expected_loads].  NOT PROVED here (C01_generated_take_restore is the _partial
+   result: no RNGState); the generated terms run that case in C01_example_generated_glue below and against the real code
+   in every run of the correspondence; property C19 owns the ordering argument. *)
+
+(* (b) THE MANIFEST take wrote, as the rank sees it through get_manifest_for_rank: distinct paths; exactly the container
+   entries flatten produced for every stateful; every leaf of every stateful has an entry (exactly one: paths are distinct)
+   through which the leaf is read back from the snapshot's storage, and there is no other entry. *)
+Theorem C01_generated_manifest_lists_every_leaf_once : forall (W : world) A repl is_async custom path,
+  glue_laws W -> NoDup (map fst A) -> no_rng A -> nonempty_keys A -> locations_distinct W A ->
+  exists st md x1,
+    take_impl_gen W path A repl [] is_async custom fx0 = Some ((st, md), x1) /\
+    let v := fst (w_manifest_for_rank W md (w_rank W)) in
+    NoDup (map fst v) /\
+    (forall p e, In (p, MCont e) v <-> exists k a, In (k, a) A /\ In (p, e) (fst (flatten_s (sf_state a) k))) /\
+    (forall k a p o, In (k, a) A -> In (p, o) (snd (flatten_s (sf_state a) k)) -> exists l, In (p, MLeaf l) v) /\
+    (forall p l, In (p, MLeaf l) v -> exists k a o, In (k, a) A /\ In (p, o) (snd (flatten_s (sf_state a) k)) /\ leaf_serves W st l o) /\
+    exists M1 ms, w_consolidate W (w_all_gather W _ M1) = Some ms /\ md_manifest md = global_of ms /\ NoDup (map fst M1) /\
+                  (forall p, In p (map fst M1) -> starts_slash p = false) /\ (forall p e, In (p, e) v <-> In (p, e) M1).
+Proof.
+  intros W A repl is_async custom path (L1 & L2 & L3 & L4 & L5 & L6 & L7 & L8).
+  exact (take_manifest W L1 L2 L3 L4 L5 L6 A repl is_async custom path).
+Qed.
+Print Assumptions C01_generated_manifest_lists_every_leaf_once.
+
+(* ... and in the one-rank world the global manifest itself (SnapshotMetadata.manifest): pairwise distinct paths, each entry
+   under "<rank>/<logical path>" (the generated os.path.join(str(rank), logical_path), C05) of exactly one entry of the view *)
+Theorem C01_generated_manifest_one_rank : forall nobatch table A repl is_async custom path,
+  let W := world1 nobatch table in
+  NoDup (map fst A) -> no_rng A -> nonempty_keys A ->
+  exists st md x1,
+    take_impl_gen W path A repl [] is_async custom fx0 = Some ((st, md), x1) /\
+    let v := view1 md 0 in
+    NoDup (map fst (md_manifest md)) /\
+    (forall q e, In (q, e) (md_manifest md) <-> exists p, q = g_manifest_path 0 p /\ In (p, e) v) /\
+    NoDup (map fst v) /\
+    (forall p e, In (p, MCont e) v <-> exists k a, In (k, a) A /\ In (p, e) (fst (flatten_s (sf_state a) k))) /\
+    (forall k a p o, In (k, a) A -> In (p, o) (snd (flatten_s (sf_state a) k)) -> exists l, In (p, MLeaf l) v) /\
+    (forall p l, In (p, MLeaf l) v -> exists k a o, In (k, a) A /\ In (p, o) (snd (flatten_s (sf_state a) k)) /\ leaf_serves W st l o).
+Proof. exact take_manifest_one_rank. Qed.
+Print Assumptions C01_generated_manifest_one_rank.
+
+(* (c) READ_OBJECT("<rank>/<logical path>") returns the leaf stored for that path (with or without obj_out, with or without
+   a memory budget, batching on or off), and raises for a path that is not in the rank's view of the manifest. *)
+Theorem C01_generated_read_object : forall (W : world) A repl is_async custom path out mb,
+  glue_laws W -> NoDup (map fst A) -> no_rng A -> nonempty_keys A -> locations_distinct W A ->
+  exists st md x1,
+    take_impl_gen W path A repl [] is_async custom fx0 = Some ((st, md), x1) /\
+    (forall k a p o, In (k, a) A -> In (p, o) (snd (flatten_s (sf_state a) k)) ->
+       exists x', read_object_gen W (mkSnap md st) (str_of_Z (w_rank W) ++ 47 :: p) out mb fx0 = Some (o, x')) /\
+    (forall p, ~ In p (map fst (fst (w_manifest_for_rank W md (w_rank W)))) ->
+       read_object_gen W (mkSnap md st) (str_of_Z (w_rank W) ++ 47 :: p) out mb fx0 = None).
+Proof.
+  intros W A repl is_async custom path out mb (L1 & L2 & L3 & L4 & L5 & L6 & L7 & L8).
+  exact (take_read_object W L1 L2 L3 L4 L5 L6 L7 A repl is_async custom path out mb).
+Qed.
+Print Assumptions C01_generated_read_object.
+
+Theorem C01_generated_read_object_one_rank : forall nobatch table A repl is_async custom path out mb,
+  let W := world1 nobatch table in
+  NoDup (map fst A) -> no_rng A -> nonempty_keys A ->
+  exists st md x1,
+    take_impl_gen W path A repl [] is_async custom fx0 = Some ((st, md), x1) /\
+    (forall k a p o, In (k, a) A -> In (p, o) (snd (flatten_s (sf_state a) k)) ->
+       exists x', read_object_gen W (mkSnap md st) (str_of_Z 0 ++ 47 :: p) out mb fx0 = Some (o, x')) /\
+    (forall p, ~ In p (map fst (view1 md 0)) -> read_object_gen W (mkSnap md st) (str_of_Z 0 ++ 47 :: p) out mb fx0 = None).
+Proof. exact take_read_object_one_rank. Qed.
+Print Assumptions C01_generated_read_object_one_rank.
+
+(* the generated glue runs: two statefuls whose keys are string prefixes of each other ("a", "ab"), one key that needs
+   escaping ("x/y"), an RNGState under "rng", everything replicated; restore of a subset with in-place targets *)
+Definition ex_glue_app : list sf_in :=
+  [([97], (1, false, ODict false [(KStr [119], Leaf 3); (KInt 1, OList [Leaf 4; Leaf 5])]));
+   ([97; 98], (2, false, ODict true [(KStr [119], Leaf 6)]));
+   ([120; 47; 121], (3, false, ODict false [(KStr [107; 47; 115], Leaf 9)]));
+   ([114; 110; 103], (4, true, ODict false [(KStr [115], Leaf 12)]))].
+Definition ex_glue_in : take_in := (ex_glue_app, [[42; 42]], [([97; 47; 119], [42; 42])], false).
+Example C01_example_generated_glue :
+  obs_take_restore (ex_glue_in, [([97], (7, false, ODict false [(KStr [119], Leaf 30)])); ([114; 110; 103], (8, true, ODict false []))], true)
+  = VL [VL [VL [VL [VZ 7; obs_obj (ODict false [(KStr [119], Leaf 3); (KInt 1, OList [Leaf 4; Leaf 5])]); VL []];
+                VL [VZ 8; obs_obj (ODict false [(KStr [115], Leaf 12)]); VL []]];
+            VL [VL [vlistZ [97; 47; 49; 47; 49]; VL []]; VL [vlistZ [97; 47; 49; 47; 49]; VL []];
+                VL [vlistZ [97; 47; 119]; VL [VL [VZ 0; VZ 30]]]; VL [vlistZ [97; 47; 119]; VL []];
+                VL [vlistZ [97; 98; 47; 119]; VL []]; VL [vlistZ [97; 98; 47; 119]; VL []];
+                VL [vlistZ [114; 110; 103; 47; 115]; VL []]; VL [vlistZ [114; 110; 103; 47; 115]; VL []];
+                VL [vlistZ [120; 37; 50; 70; 121; 47; 107; 37; 50; 70; 115]; VL []];
+                VL [vlistZ [120; 37; 50; 70; 121; 47; 107; 37; 50; 70; 115]; VL []]]]]
+  /\ obs_read_object (ex_glue_in, [48; 47; 97; 47; 49; 47; 49]) = VL [obs_obj (Leaf 5)]
+  /\ obs_read_object (ex_glue_in, [48; 47; 97; 47; 49]) = VL [].
+Proof. vm_compute. repeat split. Qed.
